@@ -22,14 +22,19 @@ from ..vloop import CLOCK
 ID = "C16"
 LEVEL = "model_checking"
 RULE = ("A: all call sequences up to length 3 (4 thorough) over 6 message-API actions x 3 categories x 3 retry states "
-        "x broker; B: all sequences up to length 3 (4) over {callback0, callback1, set_result, set_exception} x 6 eager "
+        "x broker; B: all sequences up to length 3 (4) over {callback, raising callback, set_result, set_exception} x 6 eager "
         "actions x retry state; distinct = distinct (case, exceptions raised, broker calls, callback order)")
 ASSUMPTIONS = ["Redis / RabbitMQ replaced by in-process models (part A thorough; part A quick and part B in-memory)"]
 
 ACTIONS = ["ack", "nack", "reject", "reschedule", "retry", "force_retry"]
 CATS = ["NORMAL", "DELAYED", "DEAD"]
 RETRY_STATES = {"left": (1, 0), "spent": (1, 1), "none": (0, 0), "over": (1, 2)}  # over: above the budget after forced retries
-PRE = ["cb0", "cb1", "sr", "se"]
+# cb0: a callback (sync at odd positions, async at even ones); cbx: the same, but it raises after having logged
+PRE = ["cb0", "cbx", "sr", "se"]
+
+
+class CallbackError(Exception):
+    pass
 
 
 def cases(tier):
@@ -164,11 +169,17 @@ def run_b(case):
                 if step.startswith("cb"):
                     tag = f"{step}@{i}"
                     if i % 2:
-                        m.add_callback(lambda tag=tag: actor_log(w, mid, "callback", tag))
+                        def scb(tag=tag, bad=step == "cbx"):
+                            actor_log(w, mid, "callback", tag)
+                            if bad:
+                                raise CallbackError(tag)
+                        m.add_callback(scb)
                     else:
-                        async def acb(tag=tag):
+                        async def acb(tag=tag, bad=step == "cbx"):
                             await asyncio.sleep(0)
                             actor_log(w, mid, "callback", tag)
+                            if bad:
+                                raise CallbackError(tag)
                         m.add_callback(acb)
                 elif step == "sr":
                     m.set_result({"v": i})
